@@ -141,6 +141,7 @@ class Natives(object):
                     m.store(mu.proj(('f', 'poison')), TRUE, And(gg, th.unwinding))
                 return
             if ty == 'Sender':
+                if m.debug: m.stats.setdefault('sender_drops', []).append((gg, m.fn_of(m.st.cp).name[-40:], m.st.blk, th.name))
                 ch = v.f['c']; n = m.load(ch.proj(('f', 'senders')), gg)
                 m.store(ch.proj(('f', 'senders')), Sub(n, ONE), gg); return
             if ty == 'Receiver':
@@ -173,6 +174,11 @@ class Natives(object):
             elif ty == 'Waker': steps.append(('native', '__waker_drop', [('copy', ('local', 1))]))
             elif ty in ('OneSender', 'OneReceiver'): steps.append(('native', '__oneshot_drop', [('copy', ('local', 1))]))
             elif ty == 'FutureObj': steps.append(('drop', ('field', self_place, 'p')))
+            elif ty in ('Vec', 'IntoIter'):
+                for k in range(m.CAP):
+                    place = ('field', self_place, k) if ty == 'Vec' else ('field', ('field', self_place, 'v'), k)
+                    steps.append(('dropif', k, place))
+            elif ty in ('Iter', 'Chan'): pass
             else:
                 for k in v.f: steps.append(('drop', ('field', self_place, k)))
         elif isinstance(v, En):
@@ -191,6 +197,12 @@ class Natives(object):
             if st[0] == 'callfn': b.term = ('call', None, '__direct:%d' % st[1].key, st[2], nxt, None)
             elif st[0] == 'native': b.term = ('call', ('local', 2), st[1], st[2], nxt, None)
             elif st[0] == 'drop': b.term = ('drop', st[1], nxt, None)
+            elif st[0] == 'dropif':
+                db = new()
+                b.term = ('call', ('local', 2), '__vec_has', [('copy', ('local', 1)), ('const', '%d_usize' % st[1])], cur + '_sw', None)
+                sw = mp.Blk(); f.blocks[cur + '_sw'] = sw
+                sw.term = ('switch', ('copy', ('local', 2)), [(0, nxt)], db)
+                f.blocks[db].term = ('drop', st[2], nxt, None)
             elif st[0] == 'enum':
                 en = st[1]
                 b.stmts = [('assign', ('local', 2), ('discr', self_place))]
@@ -416,7 +428,7 @@ class Natives(object):
         R('Builder::name', lambda m, th, a, g: a[0])
         def spawn(m, th, a, g):
             clo = a[1]; n = m.nspawn
-            tidv = ZERO; ok = FALSE
+            tidv = BV(4000); ok = FALSE
             for t in m.threads:
                 if not t.is_pool: continue
                 gi = And(g, Eq(n, BV(t.pool_index)))
@@ -439,6 +451,7 @@ class Natives(object):
             if not isinstance(h, St) or 'tid' not in h.f: return FALSE, FALSE
             fin = FALSE; pan = FALSE
             for t in m.threads:
+                if not t.is_pool: continue
                 e = Eq(h.f['tid'], BV(t.tid))
                 fin = Or(fin, And(e, Or(t.finished, t.dead))); pan = Or(pan, And(e, t.dead))
             return fin, pan
@@ -469,7 +482,10 @@ class Natives(object):
             rc = m.load(a[0], g)
             if not isinstance(rc, St): return FALSE
             ch = rc.f['c']
-            return Or(Ugt(m.load(ch.proj(('f', 'len')), g), ZERO), Eq(m.load(ch.proj(('f', 'senders')), g), ZERO))
+            ln = m.load(ch.proj(('f', 'len')), g); sd = m.load(ch.proj(('f', 'senders')), g)
+            dm = getattr(m, 'debug_model', None)
+            if dm is not None and evaluate(g, dm): print('   RECV_EN len=%s senders=%s ch=%r' % (evaluate(ln, dm), evaluate(sd, dm), ch), show(sd, 3)[:300])
+            return Or(Ugt(ln, ZERO), Eq(sd, ZERO))
         def recv(m, th, a, g):
             rc = m.load(a[0], g); ch = rc.f['c']
             n = m.load(ch.proj(('f', 'len')), g); has = Ugt(n, ZERO)
@@ -533,6 +549,11 @@ class Natives(object):
         R('Vec::pop VecDeque::pop_back', lambda m, th, a, g: vec_pop_back(m, a[0], g))
         R('Vec::remove', lambda m, th, a, g: vec_remove(m, a[0], a[1], g))
         T('Deref', 'deref', 'Vec', ident); T('DerefMut', 'deref_mut', 'Vec', ident)
+        def vec_index(m, th, a, g):
+            vec = a[0]; idx = a[1]
+            if not isinstance(idx, E): return Ref([])
+            return Ref(norm_refs([(And(x, restrict(Eq(idx, BV(k)), g)), c, p + (('f', k),)) for k in range(m.CAP) for x, c, p in vec.tg]))
+        T('Index', 'index', 'Vec', vec_index); T('IndexMut', 'index_mut', 'Vec', vec_index)
         R('slice::iter slice::iter_mut', lambda m, th, a, g: St('Iter', {'v': a[0], 'i': ZERO}))
         T('IntoIterator', 'into_iter', 'Vec', lambda m, th, a, g: St('IntoIter', {'v': a[0], 'i': ZERO}))
         def iter_next(m, th, a, g):
@@ -541,7 +562,6 @@ class Natives(object):
             vec = it.f['v']; i = it.f['i']
             n = m.load(vec.proj(('f', 'len')), g)
             has = Ult(i, n)
-            if m.debug: print('   iter_next i=%s n=%s has=%s' % (show(i,2), show(n,2), show(has,2)))
             elem = Ref(norm_refs([(And(x, Eq(i, BV(k))), c, p + (('f', k),)) for k in range(m.CAP) for x, c, p in vec.tg]))
             m.store(a[0].proj(('f', 'i')), Ite(has, Add(i, ONE), i), g)
             return En(OPT, Ite(has, ONE, ZERO), {1: St(None, {0: elem})})
@@ -568,6 +588,13 @@ class Natives(object):
         R('rt::begin_panic begin_panic rt::panic_fmt panic_fmt panicking::panic core::panicking::panic', lambda m, th, a, g: PANIC)
         R('num_cpus::get', lambda m, th, a, g: BV(1))
         T('Ord', 'max', '*', lambda m, th, a, g: Ite(Ult(a[0], a[1]), a[1], a[0]))
+        T('ToString', 'to_string', '*', lambda m, th, a, g: Opaque('string'))
+        def vec_has(m, th, a, g):
+            v = m.load(a[0], g); k = a[1]
+            if isinstance(v, St) and v.ty == 'Vec': return Ult(k, v.f['len'])
+            if isinstance(v, St) and v.ty == 'IntoIter' and isinstance(v.f.get('v'), St): return And(Uge(k, v.f['i']), Ult(k, v.f['v'].f['len']))
+            return FALSE
+        R('__vec_has', vec_has)
         R('__nop', lambda m, th, a, g: UNIT)
         s.nop = s.table['__nop']
         # drop_in_place as a tiny synthetic function: bb0: drop(*_1) -> bb1; bb1: return
@@ -595,16 +622,18 @@ def vec_push_back(m, vec, val, g):
     if not isinstance(n, E): return
     for k in range(m.CAP):
         m.store(vec.proj(('f', k)), val, And(g, Eq(n, BV(k))))
-    m.oblige('bound', 'container capacity %d exceeded' % m.CAP, And(g, Uge(n, BV(m.CAP))))
-    m.store(vec.proj(('f', 'len')), Add(n, ONE), g)
+    full = Uge(n, BV(m.CAP))
+    m.oblige('bound', 'container capacity %d exceeded' % m.CAP, And(g, full))
+    m.store(vec.proj(('f', 'len')), Ite(full, n, Add(n, ONE)), g)
 def vec_push_front(m, vec, val, g):
     n = m.load(vec.proj(('f', 'len')), g)
     if not isinstance(n, E): return
     for k in reversed(range(1, m.CAP)):
         m.store(vec.proj(('f', k)), m.load(vec.proj(('f', k - 1)), g), And(g, Ugt(n, BV(k - 1))))
     m.store(vec.proj(('f', 0)), val, g)
-    m.oblige('bound', 'container capacity %d exceeded' % m.CAP, And(g, Uge(n, BV(m.CAP))))
-    m.store(vec.proj(('f', 'len')), Add(n, ONE), g)
+    full = Uge(n, BV(m.CAP))
+    m.oblige('bound', 'container capacity %d exceeded' % m.CAP, And(g, full))
+    m.store(vec.proj(('f', 'len')), Ite(full, n, Add(n, ONE)), g)
 def vec_pop_front(m, vec, g):
     n = m.load(vec.proj(('f', 'len')), g)
     if not isinstance(n, E): return POISON
@@ -613,7 +642,7 @@ def vec_pop_front(m, vec, g):
     gg = And(g, has)
     for k in range(m.CAP - 1):
         m.store(vec.proj(('f', k)), m.load(vec.proj(('f', k + 1)), g), And(gg, Ugt(n, BV(k + 1))))
-    m.store(vec.proj(('f', 'len')), Sub(n, ONE), gg)
+    m.store(vec.proj(('f', 'len')), Ite(has, Sub(n, ONE), n), g)
     return En(OPT, Ite(has, ONE, ZERO), {1: St(None, {0: first})})
 def vec_pop_back(m, vec, g):
     n = m.load(vec.proj(('f', 'len')), g)
@@ -621,17 +650,19 @@ def vec_pop_back(m, vec, g):
     has = Ugt(n, ZERO)
     out = None
     for k in reversed(range(m.CAP)): out = merge(Eq(n, BV(k + 1)), m.load(vec.proj(('f', k)), g), out)
-    m.store(vec.proj(('f', 'len')), Sub(n, ONE), And(g, has))
+    m.store(vec.proj(('f', 'len')), Ite(has, Sub(n, ONE), n), g)
     return En(OPT, Ite(has, ONE, ZERO), {1: St(None, {0: out})})
 def vec_remove(m, vec, idx, g):
     n = m.load(vec.proj(('f', 'len')), g)
     if not isinstance(n, E) or not isinstance(idx, E): return POISON
     out = None
     for k in reversed(range(m.CAP)): out = merge(Eq(idx, BV(k)), m.load(vec.proj(('f', k)), g), out)
+    ok = Ult(idx, n)
     for k in range(m.CAP - 1):
-        m.store(vec.proj(('f', k)), m.load(vec.proj(('f', k + 1)), g), And(g, Ule(idx, BV(k)), Ugt(n, BV(k + 1))))
-    m.store(vec.proj(('f', 'len')), Sub(n, ONE), g)
-    return out
+        m.store(vec.proj(('f', k)), m.load(vec.proj(('f', k + 1)), g), And(g, ok, Ule(idx, BV(k)), Ugt(n, BV(k + 1))))
+    m.store(vec.proj(('f', 'len')), Ite(ok, Sub(n, ONE), n), g)
+    bad = restrict(Not(ok), g)
+    return out if bad is FALSE else PanicIf(bad, out)
 
 # ------------------------------------------------------------------------------------------ futures: wakers, contexts, oneshot
 TASK_VT_BASE = 100
